@@ -5,6 +5,7 @@ import (
 	"context"
 	"encoding/json"
 	"fmt"
+	"os"
 	"reflect"
 	"runtime"
 	"strings"
@@ -232,6 +233,12 @@ func (s *sim) checkContext(n *simNode, box *stateBox, where string) {
 	if !cmpSync("current-sync-committee", live.CurrentSyncCommittee, fresh.CurrentSyncCommittee) || !cmpSync("next-sync-committee", live.NextSyncCommittee, fresh.NextSyncCommittee) {
 		return
 	}
+	if s.res.Stats["context_checks"]%6 == 1 {
+		s.checkSiblingContexts(box, where)
+		if s.stop {
+			return
+		}
+	}
 	vals, _ := box.st.Validators()
 	cnt, _ := vals.ValidatorCount()
 	for i := uint64(0); i < cnt; i++ {
@@ -324,6 +331,122 @@ func (s *sim) checkRoots(box *stateBox, where string) {
 	if common.Root(specRoot) != viewRoot {
 		s.viol("C05", "state/spec-schema-root-vs-view-root", fmt.Sprintf("%s (%s): hash_tree_root by the specification's schema %x, tree view %s", where, forkName(st), specRoot, viewRoot))
 	}
+}
+
+// C08: two sibling continuations of one state share its context (EpochsContext.Clone, as a block
+// store does for every block) and register DIFFERENT new validators at the same index (the deposit
+// log forked). Each branch's context must still equal a context computed from its own state, and
+// continuing with it must give what continuing with a fresh context gives.
+func (s *sim) checkSiblingContexts(box *stateBox, where string) {
+	spec := s.w.spec
+	kx, ky := s.w.cfg.Validators+20, s.w.cfg.Validators+21
+	if ky >= len(s.w.keys.pub) {
+		return
+	}
+	mk := func(ki int) *common.Deposit {
+		var d common.Deposit
+		d.Data.Pubkey = s.w.keys.pub[ki]
+		d.Data.Amount = spec.MAX_EFFECTIVE_BALANCE
+		d.Data.WithdrawalCredentials[0] = common.ETH1_ADDRESS_WITHDRAWAL_PREFIX
+		d.Data.WithdrawalCredentials[31] = byte(ki)
+		dom := computeDomain(common.DOMAIN_DEPOSIT, spec.GENESIS_FORK_VERSION, common.Root{})
+		d.Data.Signature = s.w.keys.sign(ki, signingRoot(d.Data.MessageRoot(), dom))
+		return &d
+	}
+	vals, _ := box.st.Validators()
+	n, _ := vals.ValidatorCount()
+	// (the cache is shared along the chain and may know later validators: an entry counts for a state
+	// only below that state's validator count, which is how the transition reads it)
+	for _, ki := range []int{kx, ky} {
+		if idx, known := box.epc.ValidatorPubkeyCache.ValidatorIndex(s.w.keys.pub[ki]); known && uint64(idx) < n {
+			return
+		}
+	}
+	a, err1 := box.st.CopyState()
+	b, err2 := box.st.CopyState()
+	if err1 != nil || err2 != nil {
+		return
+	}
+	ea, eb := box.epc.Clone(), box.epc.Clone()
+	var err error
+	if p := guard(func() {
+		if err = phase0.ProcessDeposit(spec, ea, a, mk(kx), true); err == nil {
+			err = phase0.ProcessDeposit(spec, eb, b, mk(ky), true)
+		}
+	}); p != nil {
+		s.viol("C08", "panic/sibling-deposits/"+p.frame, p.val)
+		return
+	}
+	if err != nil {
+		return
+	}
+	if va, _ := a.Validators(); va != nil {
+		if ca, _ := va.ValidatorCount(); ca != n+1 {
+			s.res.Harness = "sibling-context monitor: the deposit did not register a validator"
+			s.stop = true
+			return
+		}
+	}
+	s.res.Stat("sibling_context_checks", 1)
+	look := func(name string, st common.BeaconState, epc *common.EpochsContext, keys ...int) bool {
+		fresh, err := common.NewEpochsContext(spec, unwrap(st))
+		if err != nil {
+			return true
+		}
+		sv, _ := st.Validators()
+		cnt, _ := sv.ValidatorCount()
+		for _, ki := range keys {
+			li, lok := epc.ValidatorPubkeyCache.ValidatorIndex(s.w.keys.pub[ki])
+			fi, fok := fresh.ValidatorPubkeyCache.ValidatorIndex(s.w.keys.pub[ki])
+			if os.Getenv("ZV_DEBUG") != "" {
+				fmt.Fprintf(os.Stderr, "look %s key %d: live (%d,%v) fresh (%d,%v) cnt %d n %d\n", name, ki, li, lok, fi, fok, cnt, n)
+			}
+			lok = lok && uint64(li) < cnt
+			fok = fok && uint64(fi) < cnt
+			if lok != fok || (lok && li != fi) {
+				s.viol("C08", "context/pubkey-cache/sibling-branch-lookup", fmt.Sprintf("%s (%s): two sibling branches registered different new validators at index %d; on branch %s the shared context answers (%d,%v) for a pubkey, a context built from that branch's state answers (%d,%v)", where, forkName(st), n, name, li, lok, fi, fok))
+				return false
+			}
+		}
+		for _, i := range []uint64{n, n + 1} {
+			if i >= cnt {
+				continue
+			}
+			lp, lok := epc.ValidatorPubkeyCache.Pubkey(common.ValidatorIndex(i))
+			fp, fok := fresh.ValidatorPubkeyCache.Pubkey(common.ValidatorIndex(i))
+			if lok != fok || (lok && lp.Compressed != fp.Compressed) {
+				s.viol("C08", "context/pubkey-cache/sibling-branch-index", fmt.Sprintf("%s (%s): branch %s, validator index %d: shared context known=%v, context from the state known=%v, or different pubkeys", where, forkName(st), name, i, lok, fok))
+				return false
+			}
+		}
+		return true
+	}
+	if !look("A", a, ea, kx, ky) || !look("B", b, eb, kx, ky) {
+		return
+	}
+	// branch B now also receives the deposit branch A had at that index: a NEW validator there
+	b2, err := b.CopyState()
+	if err != nil {
+		return
+	}
+	fresh, err := common.NewEpochsContext(spec, unwrap(b2))
+	if err != nil {
+		return
+	}
+	var e1, e2 error
+	if p := guard(func() {
+		e1 = phase0.ProcessDeposit(spec, eb, b, mk(kx), true)
+		e2 = phase0.ProcessDeposit(spec, fresh, b2, mk(kx), true)
+	}); p != nil {
+		s.viol("C08", "panic/sibling-deposits/"+p.frame, p.val)
+		return
+	}
+	hFn := tree.GetHashFn()
+	if (e1 == nil) != (e2 == nil) || (e1 == nil && b.HashTreeRoot(hFn) != b2.HashTreeRoot(hFn)) {
+		s.viol("C08", "continuation-differs/sibling-branch-deposit", fmt.Sprintf("%s (%s): on a branch whose sibling registered another validator at index %d, a deposit processed with the shared context gives err=%v, with a context built from the state err=%v; the post-states differ", where, forkName(b), n, e1, e2))
+		return
+	}
+	look("B", b, eb, kx, ky)
 }
 
 func serObj(spec *common.Spec, o common.SpecObj) []byte {
